@@ -142,7 +142,7 @@ def corpus(ctx):
 def correspondence(ctx):
     core.assert_repo_loaded()
     corpus(ctx)
-    n = ctx.pick(600, 10000)
+    n = ctx.pick(450, 8000)
     run_cases(ctx, [A.gen_case(ctx.rng, word=A.safe_word) for _ in range(n)])
     if not ctx.quick:
         run_cases(ctx, [A.gen_case(ctx.rng, word=A.safe_word, outargs=False) for _ in range(400)], real_child=True)
